@@ -77,7 +77,7 @@ package atree
 //@   ensures[C06] err == nil ==> wfADS(a) && a.header.size <= maxThreshold + maxInlineArrayElementSize && a.header.slabID == old(a.header.slabID)
 //@   ensures[C05] err == nil && old(elemsFit(a)) ==> elemsFit(a)
 //@   ensures[C09] stoFrameADS(a, valueRoot(value))
-//@   ensures[C01 C03] err == nil && !a.inlined ==> has(stored, a) && sto[a.header.slabID] == a
+//@   ensures[C01 C03 C08] err == nil && !a.inlined ==> has(stored, a) && sto[a.header.slabID] == a
 //@   ensures[C18] err != nil ==> categorised(err)
 //@   modifies a.elements, a.header, ghost.sto, ghost.issued, ghost.stored, ghost.touched, alloc, as(valueRoot(value), *ArrayDataSlab).header, as(valueRoot(value), *ArrayDataSlab).inlined, as(valueRoot(value), *MapDataSlab).header, as(valueRoot(value), *MapDataSlab).inlined
 //@   loop 1: invariant 0 <= i && i <= len(a.elements) && size == arrPrefix(a) + sum(bs, a.elements, i)
@@ -93,7 +93,7 @@ package atree
 //@   ensures[C06] err == nil ==> wfADS(a) && a.header.size == old(a.header.size) + bs(a.elements[index]) && a.header.slabID == old(a.header.slabID)
 //@   ensures[C05] err == nil && old(elemsFit(a)) ==> elemsFit(a)
 //@   ensures[C09] stoFrameADS(a, valueRoot(value))
-//@   ensures[C01 C03] err == nil && !a.inlined ==> has(stored, a) && sto[a.header.slabID] == a
+//@   ensures[C01 C03 C08] err == nil && !a.inlined ==> has(stored, a) && sto[a.header.slabID] == a
 //@   ensures[C18] err != nil ==> categorised(err)
 //@   modifies a.elements, a.header, ghost.sto, ghost.issued, ghost.stored, ghost.touched, alloc, as(valueRoot(value), *ArrayDataSlab).header, as(valueRoot(value), *ArrayDataSlab).inlined, as(valueRoot(value), *MapDataSlab).header, as(valueRoot(value), *MapDataSlab).inlined
 
@@ -106,7 +106,7 @@ package atree
 //@   ensures[C06] err == nil ==> wfADS(a) && a.header.size == old(a.header.size) - bs(v) && a.header.slabID == old(a.header.slabID)
 //@   ensures[C05] err == nil && old(elemsFit(a)) ==> elemsFit(a)
 //@   ensures[C09] stoFrameADS(a, nil)
-//@   ensures[C01 C03] err == nil && !a.inlined ==> has(stored, a) && sto[a.header.slabID] == a
+//@   ensures[C01 C03 C08] err == nil && !a.inlined ==> has(stored, a) && sto[a.header.slabID] == a
 //@   ensures[C18] err != nil ==> categorised(err)
 //@   modifies a.elements, a.header, ghost.sto, ghost.issued, ghost.stored, ghost.touched, alloc
 
